@@ -99,6 +99,9 @@ MUTANTS += [
     dict(prop='C02', name='trigger-door-unguarded', edits=[(EVENTS,
          "    def trigger(self, event: 'Event') -> None:\n        if self._value is not PENDING:\n            raise RuntimeError(f'{self} has already been triggered')\n",
          "    def trigger(self, event: 'Event') -> None:\n")]),
+    dict(prop='C02', name='run-takes-escaped-stop-signal-class-for-its-own', edits=[(CORE,
+         "            if exc is getattr(self, '_escaped', None):\n                # not the stop request: a failure nobody handled",
+         "            if False:\n                # not the stop request: a failure nobody handled")]),
     # ---- C05
     dict(prop='C05', name='all-events-off-by-one', edits=[(EVENTS,
          "        return len(events) == count", "        return len(events) <= count + (len(events) > 3)")]),
